@@ -97,6 +97,36 @@ theorem checkpoints_sorted_list (now0 : Nat) (ops : List (List Nat × Op)) (a : 
     obtain ⟨i, hi, hci⟩ := (mem_entries _ _ _).mp hc
     exact hw.2.bound i c hi hci
 
+/-- the unchecked `u32` addition `num + 1` of `push_checkpoint` cannot overflow while the
+ledger sequence number itself is below `u32::MAX`: a new entry is only appended when all
+existing ones are from earlier ledgers, so there are at most `now` of them -/
+theorem counter_never_overflows {t : Timeline} {now : Nat} (hw : WF t now) (hnow : now < U32_MAX)
+    (v : Nat) : store t now v ≠ .error .overflowPanic := by
+  intro h
+  unfold store at h
+  split at h
+  · cases h
+  · rename_i h0
+    split at h
+    · cases h
+    · rename_i c hc
+      split at h
+      · cases h
+      · rename_i hne
+        split at h
+        · cases h
+        · rename_i hov
+          have hb := hw.bound (t.num - 1) c (by omega) hc
+          have hw' : WF t (now - 1) := by
+            refine ⟨hw.present, hw.sorted, ?_⟩
+            intro i ci hi hci
+            by_cases hil : i = t.num - 1
+            · subst hil; rw [hc] at hci; injection hci with hci; subst hci; omega
+            · have := hw.sorted i (t.num - 1) ci c (by omega) (by omega) hci hc
+              omega
+          have := hw'.num_le
+          omega
+
 /-- **C13, lookup**: on a well-formed timeline `lookup_checkpoint_at` (early exits + binary
 search) never fails; it returns 0 when no checkpoint lies at or before `q`, and otherwise the
 votes of the last checkpoint at or before `q` -/
